@@ -13,7 +13,7 @@ import fam_cwrap
 class Unit:
     def __init__(self, name, fam, target, props, inline=(), stubs=(), assumed=(), decls=(), lemmas=(), macros=(), insts=(), mode='P',
                  unwind=None, solver='minisat', timeout=600, mem_gb=8, thorough_insts=(), notes='', object_bits=12, harness=None,
-                 frame_ghost_only=False, extra_flags=(), canary=True, spec=('pgm.spec',), cases=None, assumptions=(), partition=0, defines=(), drop_checks=(), extract_from=None, target_sig=None, attach=()):
+                 frame_ghost_only=False, extra_flags=(), canary=True, spec=('pgm.spec',), cases=None, assumptions=(), partition=0, defines=(), drop_checks=(), extract_from=None, target_sig=None, attach=(), lemma_only=False):
         self.name, self.fam, self.target, self.props = name, fam, target, list(props)
         self.inline, self.stubs, self.assumed = list(inline), list(stubs), list(assumed)
         self.decls, self.lemmas, self.macros = list(decls), list(lemmas), list(macros)
@@ -30,6 +30,7 @@ class Unit:
         self.defines = list(defines)
         self.drop_checks = list(drop_checks)
         self.extract_from, self.target_sig, self.attach = extract_from, target_sig, list(attach)
+        self.lemma_only = lemma_only
 
 
 def kinst(k, floating='float'):
@@ -215,3 +216,14 @@ U('cwrap_search', fam_cwrap, 'PGMWrapper_search', ['C18', 'C17'], assumed=['PGMW
 U('dyn_merge', fam_dyn, 'Dyn_merge', ['C05', 'C17'], inline=['Item_deleted'], assumed=['pgmv_copy_Item'], decls=['dyn_ghost', 'dyn_mergeview'],
   lemmas=['lemma_strict2', 'lemma_absent2'], insts=DYN_Q, thorough_insts=DYN_ALL, spec=('dyn.spec',), timeout=1500, partition=16, mem_gb=10,
   assumptions=[DYN_NOTE, 'range std::move / std::copy replaced by an element-wise copy contract [A]', 'merge is called with ranges starting at index 0 (as pairwise_merge does)'])
+
+
+# ---------------------------------------------------------------------------------------------------
+# C04 / C07: segments_count() and the counting lemma (per concrete epsilon)
+U('pgmindex_segments_count', fam_pgm, 'PGMIndex_segments_count', ['C04', 'C17'], decls=['pgm_ghost'], insts=QUICK_K[:1], spec=('pgm.spec',),
+  harness='void pgmv_harness(void)\n{\n  const PGMIndex *self;\n  __CPROVER_assume(__CPROVER_r_ok(self, sizeof(*self)));\n  PGMIndex_segments_count(self);\n}\n' if False else None)
+U('lemma_counting', fam_pgm, 'lemma_counting', ['C04', 'C07'], lemma_only=True, decls=['pgm_ghost', 'counting_lemma'], insts=QUICK_K[:1], spec=('pgm.spec',),
+  target_sig='size_t lemma_counting(const size_t *s, const uint8_t *ch, size_t m, size_t n, uint8_t c, size_t g_k)',
+  cases=[('LEMMA_EPS', str(e)) for e in (0, 1, 4, 16, 64, 128, 1024)], canary=False,
+  assumptions=['a lemma over contracts (spec text, no repository code): premises = consecutive starts inside a chunk are > 2*eps ranks apart (geo-2 maximality, bounded link) ',
+               'proved per concrete epsilon in {0,1,4,16,64,128,1024} (division by a constant); symbolic epsilon is not attempted'])
